@@ -58,7 +58,15 @@ impl RegexConstantsResult {
         let const_token = match pattern_to_const.entry(pattern.clone()) {
           Entry::Occupied(entry) => entry.get().clone(),
           Entry::Vacant(entry) => {
-            let token = ConstToken::from(&key);
+            // Two members can derive the same constant name (`User.profile_name`,
+            // `UserProfile.name`): a different pattern needs a constant of its own.
+            let base = ConstToken::from(&key);
+            let mut token = base.clone();
+            let mut suffix = 2;
+            while const_defs.contains_key(&token) {
+              token = ConstToken::new(format!("{base}_{suffix}"));
+              suffix += 1;
+            }
             const_defs.insert(token.clone(), pattern.clone());
             entry.insert(token.clone());
             token
